@@ -102,7 +102,8 @@ def do_weave(specdir, mod, scratch, stack):
             loops = {k: v for k, v in loops.items() if k in w['fns']}
         parse = os.path.join(REPO, w['parse']) if w.get('parse') else None
         try:
-            woven, cen, site = weave.weave_file(path, w['fns'], clang_flags + w.get('cflags', []), parse, site, loops)
+            woven, cen, site = weave.weave_file(path, w['fns'], clang_flags + w.get('cflags', []), parse, site, loops,
+                                                split_rmw=w.get('split_rmw', True))
         except weave.WeaveError as e:
             raise Undecided('weave: %s' % e)
         out = os.path.join(scratch, 'woven', w['file'])
